@@ -938,6 +938,51 @@ def r13_3_reconcile_shape(ctx, rule: str = 'R13.3') -> List[Ob]:
                     continue
                 good = base_atom is not None and two_sided(conj, base_atom)
     obs.append(ok(rule, t, f.loc(), construct=f"{fn}::clip") if good else violation(rule, t, f.loc(), key=f"{fn}::clipping"))
+    # (c') the selected spike times are what the new trains hold: between the selection and the SpikeTrain constructor (or
+    # the attribute store that feeds it) nothing but copies - a call that maps the selected times to other values (np.clip,
+    # np.round, arithmetic) can make two distinct times equal after the duplicates were removed
+    parents = {}
+    for n in ast.walk(src):
+        for c_ in ast.iter_child_nodes(n):
+            parents[id(c_)] = n
+    nested_names = {d.name for d in ast.walk(src) if isinstance(d, ast.FunctionDef) and d is not src}
+    t = "reconcile_spike_trains: the selected spike times reach the new trains unchanged (copies only between the selection and the constructor)"
+    sel_nodes = []
+    for n in ast.walk(src):
+        if isinstance(n, ast.ListComp) and n.generators and n.generators[0].ifs and isinstance(n.elt, ast.Name):
+            sel_nodes.append(n)
+        elif isinstance(n, ast.Subscript) and isinstance(n.ctx, ast.Load) and (
+                (isinstance(n.slice, ast.BinOp) and isinstance(n.slice.op, ast.BitAnd)) or
+                (isinstance(n.slice, ast.Call) and C.dotted(n.slice.func) == 'np.logical_and')):
+            sel_nodes.append(n)
+    bad_wrap = None
+    for n in sel_nodes:
+        cur = n
+        while id(cur) in parents:
+            par = parents[id(cur)]
+            if isinstance(par, ast.Call) and cur in par.args:
+                fnm = C.dotted(par.func) or ast.unparse(par.func)
+                if fnm in ('SpikeTrain',):
+                    break
+                if fnm in ('np.array', 'np.asarray', 'list', 'np.copy') or fnm in nested_names:
+                    cur = par
+                    continue
+                bad_wrap = (par, fnm)
+                break
+            if isinstance(par, (ast.BinOp, ast.UnaryOp)) and not (isinstance(par, ast.BinOp) and isinstance(par.op, ast.BitAnd)):
+                bad_wrap = (par, ast.unparse(par)[:40])
+                break
+            if isinstance(par, (ast.stmt, ast.comprehension)):
+                break
+            cur = par
+        if bad_wrap:
+            break
+    if sel_nodes:
+        if bad_wrap is None:
+            obs.append(ok(rule, t, f.loc(), construct=f"{fn}::selection-unchanged"))
+        else:
+            obs.append(violation(rule, t, f.loc(bad_wrap[0]), key=f"{fn}::selection-transformed::{bad_wrap[1]}",
+                                 detail=f"`{ast.unparse(bad_wrap[0])[:120]}` changes the selected times before they are stored"))
     # (d) result: new SpikeTrain objects on the common interval
     t = "reconcile_spike_trains: returns new SpikeTrain objects, all on the common interval"
     inner_nodes = {id(x) for d in ast.walk(src) if isinstance(d, (ast.FunctionDef, ast.Lambda)) and d is not src for x in ast.walk(d)}
